@@ -13,7 +13,7 @@ FORMAT_RULES = "LT01,LT02,LT03,LT04,LT05,LT06,LT07,LT08,LT09,LT10,LT11,LT12,LT13
 
 
 def run(ctx, coq_ok):
-    js = fixjobs.jobs(ctx, [FORMAT_RULES, "layout", "all", "core"], ("second",))
+    js = fixjobs.jobs(ctx, [FORMAT_RULES, "layout", "all", "core", "convention", "structure", "CV11,CP01", "ambiguous,aliasing,references"], ("second",))
     nchanged = 0
     for (d, tpl, style, label, src, rules, extra, want), st, res in corpus.pmap("harness.fixcheck", "fix_case", js):
         if st != "ok":
@@ -33,5 +33,5 @@ def run(ctx, coq_ok):
         elif f2 != f1:
             i = next((k for k in range(min(len(f1), len(f2))) if f1[k] != f2[k]), min(len(f1), len(f2)))
             ctx.violation("not-idempotent", "a second fix run changes the output again: ...%r -> ...%r [%s, rules %s]" % (f1[max(0, i - 15):i + 25], f2[max(0, i - 15):i + 25], d, rules[:14]),
-                          {"input": inp, "fixed": f1, "fixed_again": f2}, attrs={"dialect": d, "double_sign": any(p in f1 and p not in src for p in ("--", "~~"))})
+                          {"input": inp, "fixed": f1, "fixed_again": f2}, attrs={"dialect": d, "double_sign": any(p in f1 and p not in src for p in ("--", "~~")), "case_only_diff": f1.lower() == f2.lower(), "cv11": "CV11" in res["codes0"]})
     ctx.coverage_extra["files_changed_by_fix"] = nchanged
